@@ -146,7 +146,10 @@ pub fn batch_stream(run: &mut Run, rng: &mut Rng, n: usize) {
         } else if mode == 1 {
             (gq.text.clone(), vec!["--stdin".to_owned()], Some(std::fs::read(&paths[0]).unwrap_or_default()), vec![paths[0].clone()])
         } else {
-            (gq.text.clone(), paths.iter().map(|p| p.display().to_string()).collect(), None, paths.clone())
+            // one run in five names a file twice on the command line: it is two inputs (read twice, in the order given)
+            let mut given = paths.clone();
+            if rng.chance(1, 5) { let again = given[rng.below(given.len())].clone(); given.push(again); }
+            (gq.text.clone(), given.iter().map(|p| p.display().to_string()).collect(), None, given)
         };
         let lib = match library_run(&sch.defs, &query, &used, format.clone()) { Some(l) => l, None => continue };
         args.push("-d".to_owned()); args.push(defs_path.display().to_string());
